@@ -260,6 +260,13 @@ def build_expected(exp, oj):
         return ex
 
 
+def wire_ovf(m):
+    """the oracle's wire format carries 63-bit integers: a model RESULT with a larger member cannot be
+    transported (the driver answers OVF); such results are not compared (counted), the input itself
+    travels as text and the property is still checked on the implementation"""
+    return isinstance(m, str) and (m.startswith("OVF") or "int_of_string" in m)
+
+
 def _eval_text(o, inp, issues, stats):
     """inp: {"stream", "text", "opts", optional "expect"}"""
     text, oj = inp["text"], inp["opts"]
@@ -267,10 +274,12 @@ def _eval_text(o, inp, issues, stats):
     ir = K.p_result(res)
     stats["evaluations"] += 1
     mr = model_text(o, text, mo, res) if (is_ascii(text) and not inp.get("no_model")) else [0, 9]
-    cls = "ok" if ir[0] in (1, 2) else {1: "ValueError", 2: "TypeError", 3: "IndexError"}.get(ir[1], str(ir[1])) if ir[0] == 0 else str(ir)
+    cls = "ok" if ir[0] in (1, 2) else {1: "ValueError", 2: "TypeError", 3: "IndexError", 4: "KeyError", 5: "AttributeError", 6: "OverflowError"}.get(ir[1], str(ir[1])) if ir[0] == 0 else str(ir)
     stats["classes"][cls] = stats["classes"].get(cls, 0) + 1
     if mr == [0, 9]:
         stats["unmodelled"] += 1
+    elif wire_ovf(mr) and ir[0] in (1, 2):
+        stats["wire_overflow"] += 1
     elif mr != ir:
         issues.append(("rrulestr model differs from the implementation", None,
                        {"stream": inp["stream"], "input": inp, "impl": ir, "model": mr}))
@@ -597,13 +606,25 @@ JUNK = ["X=1", "FOO=BAR", "BYFOO=1", "FREQ=NEVER", "COUNT=", "COUNT=X", "COUNT=1
         "UNTIL=00000101", "UNTIL=20000101T000000Z", "UNTIL=2000010", "UNTIL=", "COUNT=+3", "COUNT=-3",
         "COUNT=1_0", "COUNT=_1", "COUNT=1__0", "INTERVAL=0", "BYMONTHDAY=0", "BYEASTER=X", "BYWEEKNO=1;",
         "BYWEEKDAY=TU", "BYDAY=MO,TU(-1),+2WE", "FREQ=daily", "freq=DAILY"]
+# integers beyond 32 / 64 bits in every numeric part (fb1f638: datetime.time() raised OverflowError for
+# BYHOUR / BYMINUTE / BYSECOND), and overlong digit strings where a date is expected (c15ba85)
+BIG = ["99999999999999999999", "-99999999999999999999", "2147483648", "-2147483649", "2147483647",
+       "9223372036854775808", "1" + "0" * 40, "+00000000000000000000000000000007"]
+JUNK += ["%s=%s" % (p_, b_) for p_ in ("BYHOUR", "BYMINUTE", "BYSECOND", "BYMONTH", "BYMONTHDAY", "BYYEARDAY", "BYWEEKNO",
+                                     "BYEASTER", "BYSETPOS", "INTERVAL", "COUNT") for b_ in BIG]
+JUNK += ["BYHOUR=1,99999999999999999999", "BYMINUTE=99999999999999999999,61", "BYSECOND=61,99999999999999999999",
+         "BYHOUR=24;BYMINUTE=99999999999999999999", "BYDAY=99999999999999999999MO", "BYDAY=MO(99999999999999999999)",
+         "UNTIL=99999999999999999999", "UNTIL=199901019000000", "UNTIL=1999010190000000000000",
+         "UNTIL=123456789012345", "UNTIL=012345678901234567"]
 PROPS = ["RRULE", "EXRULE", "RDATE", "EXDATE", "DTSTART", "FOO", "RRULE;X=1", "EXRULE;X", "RDATE;VALUE=DATE",
          "RDATE;VALUE=DATE-TIME", "RDATE;TZID=UTC", "EXDATE;VALUE=DATE", "EXDATE;VALUE=DATE;VALUE=DATE-TIME",
          "EXDATE;TZID=UTC", "EXDATE;FOO=1", "DTSTART;VALUE=DATE-TIME", "DTSTART;TZID=America/New_York",
          "DTSTART;TZID=Nowhere/Land", "DTSTART;TZID=UTC;VALUE=DATE", "DTSTART;X=Y", "", ";", "RRULE:RRULE"]
 DATEV = ["20000101", "20000101T000000", "20000101T000000Z", "20000101,20000102", "20001301", "2000010",
          "20000101T", "20000101T0000", "", "20000230", "99991231T235959", "00010101", "00000101",
-         "20000101T240000", "20000101T000060", "20000101X000000", "20000101T000000X"]
+         "20000101T240000", "20000101T000060", "20000101X000000", "20000101T000000X",
+         "99999999999999999999", "123456789012345", "1234567890123456", "200001011111111111111111111",
+         "20000101,99999999999999999999", "1" + "0" * 40, "012345678901234567", "999999999999999"]
 
 
 def gen_malformed(R, o, base_texts):
@@ -739,6 +760,9 @@ def eval_dates(o, R, tier, issues, stats):
             if R.random() < 0.4:
                 s += "Z"
         cases.append(s)
+    for _ in range(n // 10):
+        ln = R.choice([15, 16, 17, 19, 20, 21, 30, R.randrange(15, 60)])
+        cases.append(R.choice("123456789") + "".join(R.choice("0123456789") for _ in range(ln - 1)))
     for ig in (False, True):
         res = o.call_many([(K.E_DATE, [1 if ig else 0] + K.e_str(s)) for s in cases])
         for s, m in zip(cases, res):
@@ -749,6 +773,8 @@ def eval_dates(o, R, tier, issues, stats):
                 e = [1] + K.e_dt(parser.parse(s, ignoretz=ig))
             except ValueError:
                 e = [0, 1]
+            except OverflowError:
+                e = [0, 6]
             except Exception as ex:
                 e = ["EXC", type(ex).__name__]
             if e != m:
@@ -790,7 +816,7 @@ def gen_status():
 def new_stats():
     return {"evaluations": 0, "ctor_errors": 0, "naive": 0, "aware": 0, "aware_not_reparsable": 0,
             "aware_wall_differs": 0, "occ_timeouts": 0, "occ_compared": 0, "nontrivial": set(),
-            "unmodelled": 0, "out_of_space": 0, "classes": {}, "prim_evaluations": 0, "date_evaluations": 0}
+            "unmodelled": 0, "wire_overflow": 0, "out_of_space": 0, "classes": {}, "prim_evaluations": 0, "date_evaluations": 0}
 
 
 def small_scope():
@@ -1019,7 +1045,8 @@ def main():
             # outside the rule space (empty tuples, 0 / out-of-range members): constructor and
             # __str__ correspondence only
             key = R.choice(["bymonth", "bymonthday", "byhour", "byweekday", "bysetpos", "byminute"])
-            kw[key] = R.choice([(), []]) if key == "byweekday" else R.choice([0, 13, 25, 61, -5, (), [], (0, 1), 400])
+            kw[key] = R.choice([(), []]) if key == "byweekday" else R.choice(
+                [0, 13, 25, 61, -5, (), [], (0, 1), 400, 2 ** 31, -2 ** 31 - 1, 2 ** 40, (1, 2 ** 61), 2 ** 31 - 1])
             inp = {"start": dt_j(start), "kw": kw_j(kw), "fwd": 0, "out_of_space": True}
         bump("roundtrip_freq_%d" % kw["freq"])
         bump("roundtrip_" + ("naive" if tag == 0 else "utc" if tag == 1 else "zone"))
@@ -1142,6 +1169,7 @@ def main():
         "roundtrip_naive": stats["naive"], "roundtrip_aware_outside_property": stats["aware"],
         "aware_not_reparsable": stats["aware_not_reparsable"],
         "texts_outside_modelled_fragment": stats["unmodelled"],
+        "results_beyond_the_63_bit_wire_format_not_compared": stats["wire_overflow"],
         "model_vs_impl_disagreements": n_model,
         "property_violations_on_impl": n_spec,
         "samples": [{"stream": "roundtrip", "str(rule)": t} for t in texts[:4]] + samples,
